@@ -1,3 +1,177 @@
-(* C12 — address-collision analysis is sound and complete. *)
+(* C12 — Address-collision analysis is sound and complete.
+
+   Model (coq/theories/Addr.v): [lower] = the LIR blocks/methods lir_transform produces (ref lowering with
+   fuel), [claimed_methods] = get_block_claimed_addresses, [pairwise_check] = the i<j double loop,
+   [overlap_pass] = run_pass.   Spec: [instances] (every object at every combination of its own index and
+   the indices of its enclosing blocks, refs at their own address, block refs expanding their target),
+   [collide], [collision].   The parameter [fx] selects the lowering as it stands ([false]: a ref's own
+   allow_address_overlap is dropped, D10) or with D10 repaired ([true]). *)
 From Coq Require Import ZArith List Bool String.
 From DD Require Import Common Mir GenErr Addr AddrProofs.
+Import ListNotations.
+Open Scope Z_scope.
+
+(* an entry of the pass's expansion and an instance of the spec describe the same thing: same kind, same
+   printed name (block path with indices, own index), same absolute address, and the spec's effective flag
+   (target flag OR the ref's own flag) is the carried flag — except, in the code as it stands, for a ref
+   that sets the flag itself *)
+Definition same_entry (fx : bool) (c : claimed) (i : instance) : Prop :=
+  c_kind c = i_kind i /\ claimed_display c = instance_display i /\ c_address c = i_addr i /\
+  (i_allow i = c_allow c \/ (fx = false /\ has_tag TOwnFlag i = true /\ i_allow i = true)).
+
+(* The expansion list of the collision pass equals the spec's instance list, entry by entry and in order,
+   for EVERY tree: block repeats, nesting, register/command refs and block refs included — whenever the
+   lowering, the expansion and the spec enumeration terminate with the fuel given (they do not for a
+   block ref inside its own target, D11), blocks with equal names have equal children (names_unique) and no
+   block carries the device's name. *)
+Theorem C12_claimed_eq_instances : forall fx dev_name objs f1 BL f2 ms cl f3 il,
+  unique_blocks objs -> root_name_fresh dev_name objs ->
+  lower fx f1 dev_name objs = Ok BL ->
+  root_methods BL = Some ms -> claimed_methods f2 BL ms 0 [] = Ok cl ->
+  instances f3 objs = Ok il ->
+  Forall2 (same_entry fx) cl il.
+Proof. exact claimed_eq_instances. Qed.
+
+(* The i < j double loop rejects <-> some pair of claimed entries (at positions i < j, so an object can
+   collide with itself through two of its instances) has the same address, the same kind and not both
+   flags — under the flags CARRIED in the LIR. *)
+Theorem C12_pairwise_complete : forall cl,
+  pairwise_check cl <> None <->
+  exists i j a b, (i < j)%nat /\ nth_error cl i = Some a /\ nth_error cl j = Some b /\ conflict a b = true.
+Proof. exact pairwise_complete. Qed.
+
+(* Hence: for definitions in which no ref sets allow_address_overlap itself (or with D10 repaired),
+   rejected <-> two instances collide. *)
+Theorem C12_reject_iff_collision_partial : forall fx dev_name objs f1 BL f2 r f3 il,
+  unique_blocks objs -> root_name_fresh dev_name objs ->
+  (fx = true \/ no_own_flag objs = true) ->
+  lower fx f1 dev_name objs = Ok BL -> overlap_pass f2 BL = Ok r -> instances f3 objs = Ok il ->
+  (r <> None <-> collision il).
+Proof. exact reject_iff_collision. Qed.
+
+(* D10: without that restriction the statement is false of the code as it stands.
+   register X @1; register Y @2 allow; ref Z = register X { ADDRESS = 2; ALLOW_ADDRESS_OVERLAP = true }:
+   Y and Z both allow the overlap, the spec sees no collision, the pass rejects. *)
+Definition ex_reg (n : string) (a : Z) (allow : bool) (rep : option repeat) : object :=
+  ORegister {| rg_cfg := None; rg_name := n; rg_access := RW; rg_byte_order := None; rg_bit_order := BiLSB0;
+               rg_allow_bit_overlap := false; rg_allow_address_overlap := allow; rg_address := a;
+               rg_size_bits := 8; rg_reset := None; rg_repeat := rep; rg_fields := [] |}.
+Definition ex_buf (n : string) (a : Z) : object :=
+  OBuffer {| bf_cfg := None; bf_name := n; bf_access := RW; bf_address := a |}.
+Definition ex_cmd (n : string) (a : Z) (allow : bool) (rep : option repeat) : object :=
+  OCommand {| cm_cfg := None; cm_name := n; cm_address := a; cm_byte_order := None; cm_bit_order := BiLSB0;
+              cm_allow_bit_overlap := false; cm_allow_address_overlap := allow; cm_size_in := 0; cm_size_out := 0;
+              cm_repeat := rep; cm_in_fields := []; cm_out_fields := [] |}.
+
+Definition d10_objs : list object :=
+  [ex_reg "X" 1 false None; ex_reg "Y" 2 true None;
+   ORef None "Z" (OvRegister "X" None (Some 2) true None None)].
+
+Theorem C12_ref_flag_dropped_refuted :
+  exists objs BL il e,
+    unique_blocks objs /\ root_name_fresh "Dev" objs /\
+    lower false 10 "Dev" objs = Ok BL /\ overlap_pass 10 BL = Ok (Some e) /\
+    instances 10 objs = Ok il /\ ~ collision il /\
+    e = mk_err "address_overlap" ["Y"; "Z"; "2"]%string /\
+    (* ... and with the ref's own flag carried (D10 repaired) the same definition is accepted *)
+    (exists BL', lower true 10 "Dev" objs = Ok BL' /\ overlap_pass 10 BL' = Ok None).
+Proof.
+  exists d10_objs. eexists. eexists. eexists.
+  split; [apply unique_blocks_of_NoDup; vm_compute; constructor|].
+  split; [apply root_name_fresh_of_names; vm_compute; tauto|].
+  split; [vm_compute; reflexivity|]. split; [vm_compute; reflexivity|]. split; [vm_compute; reflexivity|].
+  split; [rewrite <- find_collision_complete; vm_compute; intros H; apply H; reflexivity|].
+  split; [reflexivity|]. eexists. split; [vm_compute; reflexivity|vm_compute; reflexivity].
+Qed.
+
+(* Objects of different kinds never collide: in the pass ... *)
+Theorem C12_kinds_never_collide : forall a b, c_kind a <> c_kind b -> conflict a b = false.
+Proof. exact kinds_never_conflict. Qed.
+
+(* ... and a rejection always concerns two instances of the same kind at the same absolute address; the
+   error carries both printed names (block path with indices :: own name (index: k)) and that address. *)
+Theorem C12_error_names_both : forall fx dev_name objs f1 BL f2 e f3 il,
+  unique_blocks objs -> root_name_fresh dev_name objs ->
+  lower fx f1 dev_name objs = Ok BL -> overlap_pass f2 BL = Ok (Some e) -> instances f3 objs = Ok il ->
+  exists i j a b, (i < j)%nat /\ nth_error il i = Some a /\ nth_error il j = Some b /\
+    i_kind a = i_kind b /\ i_addr a = i_addr b /\
+    e = mk_err "address_overlap" [instance_display a; instance_display b; show_Z (i_addr a)].
+Proof. exact error_names_both. Qed.
+
+(* the reported pair is the FIRST conflicting pair in (i, j) order *)
+Theorem C12_error_first_pair : forall cl e,
+  pairwise_check cl = Some e ->
+  exists i j a b, (i < j)%nat /\ nth_error cl i = Some a /\ nth_error cl j = Some b /\ conflict a b = true /\
+    e = overlap_error a b /\
+    (forall i' j' a' b', (i' < j')%nat -> nth_error cl i' = Some a' -> nth_error cl j' = Some b' ->
+       (i' < i)%nat \/ (i' = i /\ (j' < j)%nat) -> conflict a' b' = false).
+Proof. exact pairwise_error. Qed.
+
+(* names_unique's guarantee implies the two structural hypotheses *)
+Theorem C12_hypotheses_from_unique_names : forall dev_name objs,
+  NoDup (block_names objs) -> ~ In dev_name (block_names objs) ->
+  unique_blocks objs /\ root_name_fresh dev_name objs.
+Proof. intros dev_name objs H1 H2. split; [exact (unique_blocks_of_NoDup objs H1)|exact (root_name_fresh_of_names dev_name objs H2)]. Qed.
+
+(* ---------------------------------------------------------------------------------------------- *)
+(* Non-vacuity *)
+
+(* blocks.md: "when the offset is 5 and a child specifies address 7, then the actual used address will be 12";
+   refs.md: register Foo @3, ref Bar = register Foo { ADDRESS = 5 } *)
+Example C12_book_examples :
+  (exists i, instances 5 [OBlock None "Foo" 5 None [ex_buf "Bar" 7]] = Ok [i] /\ i_addr i = 12 /\
+             instance_display i = "Foo (index: 0)::Bar"%string) /\
+  (exists a b, instances 5 [ex_reg "Foo" 3 false None; ORef None "Bar" (OvRegister "Foo" None (Some 5) false None None)]
+               = Ok [a; b] /\ i_addr a = 3 /\ i_addr b = 5 /\ i_name b = "Bar"%string /\ collide a b = false).
+Proof. split; [eexists|eexists; eexists]; vm_compute; repeat split; reflexivity. Qed.
+
+(* the unit test of the pass (deep_overlap_detected), from the MIR:
+   block SecondBlock { offset 10, repeat 10 x 10 } { register Register1 @0 }, register Register0 @75 repeat 2 x 5 *)
+Definition deep_objs : list object :=
+  [OBlock None "SecondBlock" 10 (Some {| r_count := 10; r_stride := 10 |}) [ex_reg "Register1" 0 false None];
+   ex_reg "Register0" 75 false (Some {| r_count := 2; r_stride := 5 |})].
+
+Example C12_deep_overlap :
+  exists BL, lower false 10 "Root" deep_objs = Ok BL /\
+    overlap_pass 10 BL = Ok (Some (mk_err "address_overlap"
+                                ["SecondBlock (index: 7)::Register1"; "Register0 (index: 1)"; "80"]%string)).
+Proof. eexists. split; [vm_compute; reflexivity|vm_compute; reflexivity]. Qed.
+
+(* a tree with nesting, a repeated block, a register ref, a command ref keeping its target's repeat, a block
+   ref with its own offset and repeat, stride 0 self-collision allowed by the flag: all hypotheses of
+   C12_claimed_eq_instances / C12_reject_iff_collision_partial hold, 20 instances, no collision, accepted *)
+Definition big_objs : list object :=
+  [OBlock None "Outer" 100 (Some {| r_count := 2; r_stride := 50 |})
+     [ex_reg "Ra" 1 false None;
+      OBlock None "Inner" 10 None [ex_cmd "Ca" 0 false (Some {| r_count := 2; r_stride := -1 |}); ex_buf "Ba" 3]];
+   ex_reg "Rb" 7 true (Some {| r_count := 3; r_stride := 0 |});
+   ORef None "Rc" (OvRegister "Ra" (Some RO) (Some 8) false None None);
+   ORef None "Cb" (OvCommand "Ca" (Some 20) false None);
+   ORef None "Blk" (OvBlock "Inner" (Some 400) (Some {| r_count := 2; r_stride := 4 |}))].
+
+Example C12_hypotheses_satisfiable :
+  unique_blocks big_objs /\ root_name_fresh "Dev" big_objs /\ no_own_flag big_objs = true /\
+  exists BL il, lower false 10 "Dev" big_objs = Ok BL /\ overlap_pass 10 BL = Ok None /\
+                instances 10 big_objs = Ok il /\ List.length il = 20%nat /\ find_collision il = None.
+Proof.
+  split; [apply unique_blocks_of_NoDup; vm_compute; repeat constructor; cbn; intuition discriminate|].
+  split; [apply root_name_fresh_of_names; vm_compute; intuition discriminate|].
+  split; [reflexivity|]. eexists. eexists.
+  split; [vm_compute; reflexivity|]. split; [vm_compute; reflexivity|]. split; [vm_compute; reflexivity|].
+  split; vm_compute; reflexivity.
+Qed.
+
+(* a collision through a block ref and a repeated block is found and named with both paths *)
+Example C12_collision_through_block_ref :
+  exists BL, lower false 10 "Dev" (big_objs ++ [ex_buf "Bz" 407]) = Ok BL /\
+    overlap_pass 10 BL = Ok (Some (mk_err "address_overlap" ["Inner (index: 1)::Ba"; "Bz"; "407"]%string)).
+Proof. eexists. split; [vm_compute; reflexivity|vm_compute; reflexivity]. Qed.
+
+Print Assumptions C12_claimed_eq_instances.
+Print Assumptions C12_pairwise_complete.
+Print Assumptions C12_reject_iff_collision_partial.
+Print Assumptions C12_ref_flag_dropped_refuted.
+Print Assumptions C12_kinds_never_collide.
+Print Assumptions C12_error_names_both.
+Print Assumptions C12_error_first_pair.
+Print Assumptions C12_hypotheses_from_unique_names.
